@@ -58,7 +58,7 @@ def harness(cmd, req, timeout=600):
         return {"error": (p.stdout[-500:] + p.stderr[-1500:])}
 
 
-def write_replay(prop, qualname, obligation, recipes, solver_info, found_input):
+def write_replay(prop, qualname, obligation, recipes, solver_info, found_input, frame=False):
     d = os.path.join(VERIF, "replays", prop)
     os.makedirs(d, exist_ok=True)
     safe = "".join(ch if ch.isalnum() or ch in "._-" else "_" for ch in obligation)[:120]
@@ -71,7 +71,10 @@ def write_replay(prop, qualname, obligation, recipes, solver_info, found_input):
         f.write(f"sys.path.insert(0, {VERIF!r})\n")
         f.write("from replay import harness\n")
         f.write(f"OBLIGATION = {obligation!r}\nQUALNAME = {qualname!r}\n")
-        if found_input:
+        if found_input and frame:
+            f.write(f"ARGS = json.loads({json.dumps(json.dumps(recipes))})\n")
+            f.write("harness.frame_replay_main(QUALNAME, ARGS)\n")
+        elif found_input:
             f.write(f"ARGS = json.loads({json.dumps(json.dumps(recipes))})\n")
             f.write("harness.replay_main(QUALNAME, ARGS, OBLIGATION)\n")
         else:
@@ -305,7 +308,8 @@ def run_property(prop, tier, seed, timeout, args, t_start):
             if out.get("found"):
                 recipes, found, rep = out["args"], True, out["report"]
         info["real_code_report"] = rep
-        path = write_replay(prop, q, name, recipes, info, found)
+        path = write_replay(prop, q, name, recipes, info, found,
+                            frame=bool(g.get("plugin") and (g["plugin"].get("replay") or {}).get("frame_replay")))
         hit = None
         for k in open_known:
             if k.get("obligation") == bn:
